@@ -83,6 +83,11 @@ Definition convert_steps (dst src : sty) : list cstep :=
           if ssize src =? ssize dst then []
           else [step1 (Ocvt (if ssize src <? ssize dst then Cexts else Ctruncd)) k]
       | _ =>
+          (* the conversions read a whole word: a narrower value is first converted to int / unsigned *)
+          (if ssize src <? 4 then
+             [step1 (Oext (if ssize src =? 2 then (if ssigned src then Esh else Euh)
+                           else (if ssigned src then Esb else Eub))) Kw]
+           else []) ++
           [step1 (Ocvt (if ssigned src then (if ssize src =? 8 then Csltof else Cswtof)
                         else (if ssize src =? 8 then Cultof else Cuwtof))) k]
       end
@@ -166,6 +171,24 @@ Definition funcload (t : sty) (addr : ref) (before after : Z) : G ref :=
 Definition store_mask (size before after : Z) : Z :=
   (Z.shiftl (Z.shiftr (M64 - 1) (64 - size * 8 + (before + after))) before) mod M64.
 
+(* the part of funcstore after the value was shifted into place ([v1]) and prepared for funcbits ([r0]) *)
+Definition funcstore_tail (t : sty) (addr : ref) (before after : Z) (v1 r0 : ref) : G ref :=
+  let k := qbase t in
+  let mask := store_mask (ssize t) before after in
+  dog r <- funcbits t r0 before after;
+  dog v2 <- ginst (Obin Qbe.Band) k v1 (Some (mkint mask));
+  dog old <- ginst (Oload (qload t)) k addr None;
+  dog keep <- ginst (Obin Qbe.Band) k old (Some (mkint (M64 - 1 - mask)));
+  dog v3 <- ginst (Obin Qbe.Bor) k v2 (Some keep);
+  dog _ <- ginst0 (Ostore (qstore t)) v3 (Some addr);
+  gret r.
+
+(* funcbits expects the bits above a 1- or 2-byte unit to be an extension of it, as after a load: when no left
+   shift will be done (after = 0) the shifted value is extended first *)
+Definition store_top (t : sty) (after : Z) : bool := (after =? 0) && (ssize t <? 4).
+Definition store_ext (t : sty) : extk :=
+  if ssize t =? 1 then (if ssigned t then Esb else Eub) else (if ssigned t then Esh else Euh).
+
 (* returns the value of the assignment expression *)
 Definition funcstore (t : sty) (addr : ref) (before after : Z) (v : ref) : G ref :=
   let t := pnorm t in
@@ -173,15 +196,9 @@ Definition funcstore (t : sty) (addr : ref) (before after : Z) (v : ref) : G ref
   if before + after =? 0 then
     dog _ <- ginst0 (Ostore (qstore t)) v (Some addr); gret v
   else
-    let mask := store_mask (ssize t) before after in
     dog v1 <- ginst (Obin Bshl) k v (Some (mkint before));
-    dog r <- funcbits t v1 before after;
-    dog v2 <- ginst (Obin Qbe.Band) k v1 (Some (mkint mask));
-    dog old <- ginst (Oload (qload t)) k addr None;
-    dog keep <- ginst (Obin Qbe.Band) k old (Some (mkint (M64 - 1 - mask)));
-    dog v3 <- ginst (Obin Qbe.Bor) k v2 (Some keep);
-    dog _ <- ginst0 (Ostore (qstore t)) v3 (Some addr);
-    gret r.
+    dog r0 <- (if store_top t after then ginst (Oext (store_ext t)) Kw v1 None else gret v1);
+    funcstore_tail t addr before after v1 r0.
 
 (* ------------------------------------------------------------------ funccopy *)
 Definition copy_width (align : Z) : Z := match align with 1 => 1 | 2 => 2 | 4 => 4 | _ => 8 end.
